@@ -122,13 +122,23 @@ pub fn replay_session(sc: &PairScenario) -> Vec<(String, String, u64)> {
             if r.outcome != Outcome::Returned {
                 break;
             }
+            // every other time another key table comes into being in the same process (a second
+            // engine object, a table built for some other purpose): its keys are its own
+            // business, the first engine's hashes stay what they were
+            if ri % 2 == 0 {
+                let (o, other) = sess.proc_.run(engine::zobrist::ZobristTable::new);
+                if o != Outcome::Returned {
+                    break;
+                }
+                drop(other);
+            }
             for (i, (b, _)) in built.iter().enumerate() {
                 let h = bench.searcher.verif_hash(b);
                 if h != h0[i] {
                     let lh = sess.st().log_hash;
                     out.push((
                         "same_position_two_hashes".to_string(),
-                        format!("{:?} hashed to {:016x} on the fresh engine and to {:016x} after a depth-1 search of {:?} (root #{})", sc.boards[i], h0[i], h, sc.search_roots[ri], ri),
+                        format!("{:?} hashed to {:016x} on the fresh engine and to {:016x} after a depth-1 search of {:?} (root #{}{})", sc.boards[i], h0[i], h, sc.search_roots[ri], ri, if ri % 2 == 0 { ", followed by the creation of another key table in the same process" } else { "" }),
                         lh,
                     ));
                     return out;
